@@ -68,7 +68,11 @@ func c19Decode(in string) (kv map[string]string, files [][2]string) {
 }
 
 var c19Assets = []string{"Assets:Bank", "Assets:Cash", "Assets:Broker:Main", "Liabilities:Card"}
-var c19Others = []string{"Expenses:Food", "Expenses:Rent", "Income:Salary", "Equity:Opening", "Expenses:Fees"}
+
+// (Expenses:Cash and Income:Card are the type-swapped twins of the valuation accounts Income:Cash / Expenses:Card that
+// Valuate creates for Assets:Cash and Liabilities:Card while the report stage remaps accounts: seeded change
+// C19d-swaps-under-two-locks raced on exactly that pair of registry paths)
+var c19Others = []string{"Expenses:Food", "Expenses:Rent", "Income:Salary", "Equity:Opening", "Expenses:Fees", "Expenses:Cash", "Income:Card"}
 
 // genC19Journal returns the directives (as text) of a valid journal, the number of distinct
 // dates and, per date, nothing else; failure kinds mutate it afterwards.
@@ -197,12 +201,45 @@ func genC19(out *caseWriter, seed uint64, n int, args []string) error {
 			c.cmd = "balance"
 			flagsets := [][]string{{}, {"-v", "CHF"}, {"--months"}, {"-v", "CHF", "--months", "--diff"},
 				{"--days", "--last", "5"}, {"-v", "CHF", "--weeks", "-m", "1,Expenses"}, {"--csv", "--years"},
-				{"-m", "1:1,Assets", "-a"}}
+				{"-m", "1:1,Assets", "-a"}, {"-v", "CHF", "--remap", "Expenses"}, {"-v", "CHF", "--remap", "Cash", "--days"},
+				{"--remap", "Assets", "--months"}}
 			c.args = append([]string{"--from", "2018-01-01", "--to", "2025-12-31", "--color=false"}, pick(r, flagsets)...)
 		}
 		if kind == "noprice" {
 			c.cmd = "balance"
 			c.args = []string{"--from", "2018-01-01", "--to", "2025-12-31", "--color=false", "-v", "CHF"}
+		}
+		if race && i%4 == 3 {
+			// lazily created accounts: many custody accounts, each with a same-named account of another type, take a
+			// USD position one after the other while the price moves daily; the valued report remaps accounts.  The
+			// valuation stage then creates valuation accounts (registry writes) on many different days while the report
+			// stage resolves remapped accounts (registry reads) for the days before (seeded change
+			// C19d-swaps-under-two-locks protected one map with two different locks on those two paths)
+			kind = "ok"
+			dirs = nil
+			nacc := r.rangeInt(8, 30)
+			d0 := time.Date(2020, 1, 1, 0, 0, 0, 0, time.UTC)
+			for _, a := range []string{"Equity:Equity", "Assets:Bank", "Expenses:Food"} {
+				dirs = append(dirs, fmt.Sprintf("%s open %s", d0.Format("2006-01-02"), a))
+			}
+			for k := 0; k < nacc; k++ {
+				dirs = append(dirs, fmt.Sprintf("%s open Assets:Depot:S%02d", d0.Format("2006-01-02"), k),
+					fmt.Sprintf("%s open %s:Depot:S%02d", d0.Format("2006-01-02"), pick(r, []string{"Expenses", "Income"}), k))
+			}
+			dirs = append(dirs, fmt.Sprintf("%s \"opening\"\nEquity:Equity Assets:Bank 100000 CHF", d0.Format("2006-01-02")))
+			for k := 0; k < nacc+3; k++ {
+				dt := d0.AddDate(0, 0, 1+k).Format("2006-01-02")
+				dirs = append(dirs, fmt.Sprintf("%s price USD 0.%d CHF", dt, 80+r.intn(19)))
+				if k < nacc {
+					dirs = append(dirs, fmt.Sprintf("%s \"buy\"\nEquity:Equity Assets:Depot:S%02d %d USD", dt, k, r.rangeInt(1, 900)))
+				}
+				dirs = append(dirs, fmt.Sprintf("%s \"lunch\"\nAssets:Bank Expenses:Food %d CHF", dt, r.rangeInt(5, 40)))
+			}
+			c = c19Case{sched: 1 + r.intn(1000000), kind: kind, ndir: len(dirs), ndays: nacc + 4, cmd: "balance"}
+			c.args = []string{"--from", "2018-01-01", "--to", "2025-12-31", "--color=false", "-v", "CHF", "--remap", pick(r, []string{"Expenses", "Depot", "Food"})}
+			if r.chance(40) {
+				c.args = append(c.args, pick(r, []string{"--days", "--weeks", "--months"}))
+			}
 		}
 		// include tree: file 0 is the root; file i is included by a random earlier file
 		nf := r.rangeInt(1, 7)
